@@ -223,6 +223,38 @@ def _apply_rules(ed: _Edit, toks, lo, hi, repo, opts, rules, dropped, file):
                 bump('X2-' + t.text)
                 p = pos[o] + 1
                 continue
+        # X2e: `matches!(E, P1 | P2 if G)` is the match that macro expands to, with the guard repeated on each alternative
+        # (Verus has no or-pattern with a guard): `(match E { P1 if G => true, P2 if G => true, _ => false })`
+        if 'desugar_matches_guard' in opts and t.kind == 'ident' and t.text == 'matches' and p + 2 < len(ci) \
+                and toks[ci[p + 1]].text == '!' and toks[ci[p + 2]].text == '(':
+            mo = ci[p + 2]
+            mc = rs.match_close(toks, mo)
+            inner = [j for j in ci[p + 3:pos[mc]]]
+            # split at the first top-level comma, then at the top-level `if`
+            depth, comma, if_at, bars = 0, None, None, []
+            for j in inner:
+                tj = toks[j]
+                if tj.kind == 'open':
+                    depth += 1
+                elif tj.kind == 'close':
+                    depth -= 1
+                elif depth == 0 and tj.text == ',' and comma is None:
+                    comma = j
+                elif depth == 0 and comma is not None and tj.kind == 'ident' and tj.text == 'if' and if_at is None:
+                    if_at = j
+                elif depth == 0 and comma is not None and if_at is None and tj.text == '|':
+                    bars.append(j)
+            if comma is not None and if_at is not None:
+                expr = ''.join(x.text for x in toks[mo + 1:comma]).strip()
+                guard = ''.join(x.text for x in toks[if_at + 1:mc]).strip()
+                cuts = [comma] + bars + [if_at]
+                pats = [''.join(x.text for x in toks[cuts[i] + 1:cuts[i + 1]]).strip() for i in range(len(cuts) - 1)]
+                arms = ' '.join('%s if %s => true,' % (pt, guard) for pt in pats)
+                ed.replace(k, mc, '(match %s { %s _ => false })' % (expr, arms))
+                dropped.append('%s:%d matches!(.., P1 | P2 if G) written as the match it expands to, guard repeated per alternative (X2e)' % (file, t.line))
+                bump('X2e-matches')
+                p = pos[mc] + 1
+                continue
         # X2b: `RECV.map_err(|e| { BODY })` with an inline closure becomes the match it abbreviates (std's definition of
         # Result::map_err), so that the closure body is ordinary code of the function
         if 'desugar_map_err' in opts and t.kind == 'ident' and t.text == 'map_err' and p >= 1 and toks[ci[p - 1]].text == '.' \
@@ -374,6 +406,52 @@ def splice_fn(repo, file, item_path, sections, trait=None, nth=0, opts=(), canar
             ed.ins_after(lclose, ' }')
             rules['X2c-for'] = rules.get('X2c-for', 0) + 1
             dropped.append('%s:%d `for %s in ..` written as `while let Some(%s) = it.next()` over `.into_iter()` (X2c)' % (file, toks[kw].line, pat, pat))
+    # X2d: `//@desugar K` holds `RECV.method` (method one of map, and_then, filter) for an Option receiver and an inline closure:
+    # every occurrence `RECV.method(|PAT| BODY)` is written as the match that std defines the combinator to be, so BODY is ordinary
+    # code of the function.  The receiver text must occur (else the anchor is lost).
+    for dk in sorted(k for k in sections if k.startswith('desugar ')):
+        want = [t.text for t in rs.tokenize(sections[dk]) if t.kind not in ('ws', 'comment', 'doc')]
+        if len(want) < 3 or want[-2] != '.' or want[-1] not in ('map', 'and_then', 'filter'):
+            raise AnchorLost('template: //@%s must end in .map / .and_then / .filter' % dk)
+        method = want[-1]
+        body_ci = [k for k in range(body_open + 1, body_close) if toks[k].kind not in ('ws', 'comment', 'doc')]
+        posm = {k: p for p, k in enumerate(body_ci)}
+        hits = []
+        for p0 in range(0, len(body_ci) - len(want) + 1):
+            if toks[body_ci[p0]].text == want[0] and all(toks[body_ci[p0 + j]].text == want[j] for j in range(len(want))):
+                hits.append(p0)
+        # no occurrence: nothing to rewrite (the rewriting preserves meaning, so its absence needs no anchor)
+        for p0 in hits:
+            pm = p0 + len(want) - 1            # code position of the method name
+            if pm + 2 >= len(body_ci) or toks[body_ci[pm + 1]].text != '(' or toks[body_ci[pm + 2]].text != '|':
+                raise AnchorLost('%s: //@%s: not followed by an inline closure' % (item_path, dk))
+            call_open = body_ci[pm + 1]
+            call_close = rs.match_close(toks, call_open)
+            q = pm + 3
+            depth = 0
+            while q < len(body_ci) and not (toks[body_ci[q]].text == '|' and depth == 0):
+                if toks[body_ci[q]].kind == 'open':
+                    depth += 1
+                elif toks[body_ci[q]].kind == 'close':
+                    depth -= 1
+                q += 1
+            if q >= len(body_ci) or body_ci[q] >= call_close:
+                raise AnchorLost('%s: //@%s: closure parameters not found' % (item_path, dk))
+            pat = ' '.join(''.join(t.text for t in toks[body_ci[pm + 2] + 1:body_ci[q]]).split())
+            if ':' in pat:
+                raise AnchorLost('%s: //@%s: typed closure parameter' % (item_path, dk))
+            ed.ins_before(body_ci[p0], '(match (')
+            if method == 'map':
+                ed.replace(body_ci[pm - 1], body_ci[q], ') { Some(%s) => Some(' % pat)
+                ed.replace(call_close, call_close, '), None => None })')
+            elif method == 'and_then':
+                ed.replace(body_ci[pm - 1], body_ci[q], ') { Some(%s) => (' % pat)
+                ed.replace(call_close, call_close, '), None => None })')
+            else:
+                ed.replace(body_ci[pm - 1], body_ci[q], ') { Some(cv_v) => if { let %s = &cv_v; ' % pat)
+                ed.replace(call_close, call_close, ' } { Some(cv_v) } else { None }, None => None })')
+            rules['X2d-' + method] = rules.get('X2d-' + method, 0) + 1
+            dropped.append('%s:%d Option::%s with an inline closure written as the match it abbreviates (X2d)' % (file, toks[body_ci[pm]].line, method))
     # X7 statement abstraction: `//@replace K` holds the exact source text of one or more statements (compared
     # token by token, whitespace and comments ignored); `//@with K` the environment call that stands for them.
     # The replaced text is an ASSUMED part of the function (listed in evidence); a change to it loses the anchor.
@@ -400,7 +478,7 @@ def splice_fn(repo, file, item_path, sections, trait=None, nth=0, opts=(), canar
             dropped.append('%s:%d statement replaced by an assumed environment call (X7): %s' % (
                 file, toks[a_idx].line, ' '.join(sections[rk].split())[:300]))
     for key, text in sections.items():
-        if key.startswith('replace ') or key.startswith('replace_all ') or key.startswith('with '):
+        if key.startswith('replace ') or key.startswith('replace_all ') or key.startswith('with ') or key.startswith('desugar '):
             continue
         if not text.strip() and key != 'spec' and not key.startswith('ret '):
             continue
